@@ -97,6 +97,41 @@ def _replace_subtree(e: ast.AST, what: ast.AST, name: str) -> ast.AST:
     return T().visit(copy.deepcopy(e))
 
 
+def _position_source(item):
+    """``ITEM(<iterable>)`` of the loop that drives the chunking -> (position node, index node, first index, start, stop, step,
+    count) for ``range(start, stop, step)`` (count None), ``islice(count(start, step), n)`` (stop None), or ``enumerate`` of
+    one of these (position = element 1, index = element 0)"""
+    it = item.args[0]
+    idx_node = None
+    idx_start = None
+    pos_node = item
+    if isinstance(it, ast.Call) and norm(it.func) == 'enumerate' and 1 <= len(it.args) <= 2:
+        k = it.args[1] if len(it.args) == 2 else next((kw.value for kw in it.keywords if kw.arg == 'start'), ast.Constant(value=0))
+        if not (isinstance(k, ast.Constant) and type(k.value) is int) or any(kw.arg != 'start' for kw in it.keywords):
+            return None
+        idx_start = k.value
+        idx_node = ast.Subscript(value=item, slice=ast.Constant(value=0), ctx=ast.Load())
+        pos_node = ast.Subscript(value=item, slice=ast.Constant(value=1), ctx=ast.Load())
+        it = it.args[0]
+    if isinstance(it, ast.Call) and norm(it.func) in ('range', 'six.moves.range', 'xrange') and not it.keywords and 1 <= len(it.args) <= 3:
+        a = it.args
+        if len(a) == 3:
+            start, stop, step = a
+        elif len(a) == 2:
+            start, stop, step = a[0], a[1], ast.Constant(value=1)
+        else:
+            start, stop, step = ast.Constant(value=0), a[0], ast.Constant(value=1)
+        return pos_node, idx_node, idx_start, start, stop, step, None
+    if isinstance(it, ast.Call) and norm(it.func) in ('itertools.islice', 'islice') and len(it.args) == 2 and not it.keywords \
+            and isinstance(it.args[0], ast.Call) and norm(it.args[0].func) in ('itertools.count', 'count') and not it.args[0].keywords \
+            and len(it.args[0].args) <= 2:
+        ca = it.args[0].args
+        start = ca[0] if ca else ast.Constant(value=0)
+        step = ca[1] if len(ca) == 2 else ast.Constant(value=1)
+        return pos_node, idx_node, idx_start, start, None, step, it.args[1]
+    return None
+
+
 def bytes_fragmenter(repo, hier, rep=None):
     """The bytes fragmenter as one loop: ``fragment`` with the ``chunks`` generator fused in (whether the tree keeps them apart
     or has merged them), abstractly interpreted; every yielded (chunk, flag) pair is decomposed into position / width / stop of
@@ -177,25 +212,51 @@ def bytes_fragmenter(repo, hier, rep=None):
             continue
         items = [n for n in ast.walk(ce) if isinstance(n, ast.Call) and isinstance(n.func, ast.Name) and n.func.id == 'ITEM'
                  and len(n.args) == 1]
-        rng = [n for n in items if isinstance(n.args[0], ast.Call) and norm(n.args[0].func) == 'range']
-        if not rng:
+        src = None
+        for n in items:
+            src = _position_source(n)
+            if src is not None:
+                break
+        if src is None:
+            if items:
+                raise AnalysisError('%s: the positions the chunks are cut at come from %s, which is neither range(start, stop, step) '
+                                    'nor islice(count(start, step), n) (optionally enumerated)' % (f0.loc(), norm(items[0].args[0])))
             p2.append('positions are not produced by range(start, stop, step): %s' % ev.args[0])
             continue
-        pos_node = rng[0]
-        r_args = pos_node.args[0].args
-        if len(r_args) == 3:
-            start, stop, step = r_args
-        elif len(r_args) == 2:
-            start, stop, step = r_args[0], r_args[1], ast.Constant(value=1)
-        else:
-            start, stop, step = ast.Constant(value=0), r_args[0], ast.Constant(value=1)
+        pos_node, idx_node, idx_start, start, stop, step, count = src
         widths.add((norm(step), ev.conds))
         if not (isinstance(start, ast.Constant) and start.value == 0):
             p2.append('range starts at %s, not 0' % norm(start))
-        if norm(stop) != 'len(%s)' % datap:
+        if stop is not None and norm(stop) != 'len(%s)' % datap:
             p2.append('range stops at %s, not len(%s)' % (norm(stop), datap))
+        if count is not None:
+            # islice(count(0, w), n): n must be the number of chunks, ceil(len / w): decided by folding n on the boundary grid
+            from ..arith import CannotEvaluate, eval_value
+            cn = count if isinstance(step, ast.Constant) else _replace_subtree(count, step, '__w__')
+            bad = None
+            try:
+                for size_v in range(1, 7):
+                    if isinstance(step, ast.Constant) and step.value != size_v:
+                        continue
+                    for length_v in range(0, 4 * size_v + 2):
+                        got = eval_value(cn, {datap: b'x' * length_v, '__w__': size_v})
+                        if got != -(-length_v // size_v):
+                            bad = (length_v, size_v, got)
+                            raise StopIteration
+            except StopIteration:
+                pass
+            except (CannotEvaluate, Exception) as exc:
+                raise AnalysisError('%s: cannot fold the number of chunks %s: %s' % (f0.loc(), norm(cn), exc))
+            if bad is not None:
+                p2.append('%s positions are taken for a sequence of %d bytes cut into %d-byte chunks, %d chunks cover it: %s'
+                          % (bad[2], bad[0], bad[1], -(-bad[0] // bad[1]),
+                             'a chunk past the end (empty) is produced' if bad[2] > -(-bad[0] // bad[1]) else 'the tail is dropped'))
+            elif rep is not None:
+                rep.notes['chunks_count'] = 'number of positions %s = ceil(len / width): decided by folding on the boundary grid' % norm(cn)
 
         def canon(e):
+            if idx_node is not None:
+                e = _replace_subtree(e, idx_node, '__idx__')
             e = _replace_subtree(e, pos_node, '__pos__')
             if not isinstance(step, ast.Constant):
                 e = _replace_subtree(e, step, '__w__')
@@ -244,6 +305,7 @@ def bytes_fragmenter(repo, hier, rep=None):
                         env = {datap: b'x' * length_v, '__w__': size_v}
                         for pos_v in range(0, length_v, size_v):
                             env['__pos__'] = pos_v
+                            env['__idx__'] = (idx_start or 0) + pos_v // size_v
                             got = bool(eval_value(tc, env))
                             if got != (pos_v + size_v < length_v):
                                 agree, witness = False, (length_v, size_v, pos_v, got)
@@ -394,7 +456,9 @@ def run(repo, rep):
                             p3.append('the look-ahead byte is not pushed back (seek(-1, 1)) when a further byte exists')
                         if took_false and any(e.conds and ('-' + test) in e.conds for e in pos_seek):
                             p3.append('seek back although no byte was read')
-                        if not any(c_ == '+' + ev.args[0] for c_ in ev.conds):
+                        t0 = ev.args[0]
+                        if not any(c_ in ('+' + t0, "-%s == b''" % t0, "+%s != b''" % t0, '+len(%s)' % t0, '-len(%s) == 0' % t0,
+                                          '+len(%s) > 0' % t0, '-not ' + t0) for c_ in ev.conds):
                             p2.append('an empty read is not the end of the loop (fragment yielded without testing the chunk)')
         if n_y == 0:
             raise AnalysisError('%s: no yield found' % f.loc())
